@@ -5,7 +5,7 @@ MAB.predict_expectations, evaluated on every call made by this dedicated workloa
 every other check's workload).  This module adds the arm-list shadow: after every recorded add_arm /
 remove_arm event the bandit's arm list must equal the list derived from the events alone.
 
-As built: Workload extras: bandits with a single arm (built so or shrunk by remove_arm), 17-19 arms, query batches up to 130 rows and one batch of 32769-72768 rows.
+As built: Workload extras: bandits with a single arm (built so or shrunk by remove_arm), 17-19 arms, query batches up to 130 rows and one batch of 32769-72768 rows. A third of the Radius / LSHNearest cases configure no_nhood_prob_of_arm and change arms nevertheless (known finding K6 is what the unchanged tree does then).
 """
 from mon import env  # noqa: F401
 
